@@ -320,8 +320,8 @@ def main(tier, seed):
     # distances from one inserted second to another (+-3 s): the walk has to correct for every insertion in between and
     # still land on, just before or just after one
     spans = [L.steps[j] - L.steps[i] + d for i in range(len(L.steps)) for j in range(i + 1, len(L.steps)) for d in range(-3, 4)]
-    spans = rng.sample(spans, 12 if quick else 400) + [63072001, 94608001, 142128001, L.steps[-1] - L.steps[0] + 1]
-    for n in [1, 2, 3, 4, 5, 6, 86400, 86401, 31536000, 63072000] + spans + [rng.randrange(1, 10 ** 8) for _ in range(6 if quick else 80)]:
+    spans = rng.sample(spans, 12 if quick else 1500) + [63072001, 94608001, 142128001, L.steps[-1] - L.steps[0] + 1]
+    for n in [1, 2, 3, 4, 5, 6, 86400, 86401, 31536000, 63072000] + spans + [rng.randrange(1, 10 ** 8) for _ in range(6 if quick else 300)]:
         for s in (1, -1):
             tasks.append(("radd", (bindir, s * n, add_ts + ins + [rng.randrange(L.ts[0] + 100, L.ts[-1] + 10 ** 8) for _ in range(40)])))
             if not quick or n in (1, 2, 86401, 63072000, 63072001) or n > 10 ** 6 and n % 3 == 0:
@@ -329,7 +329,7 @@ def main(tier, seed):
                     tasks.append(("radd", (bindir, s * n, add_ts + ins + [rng.randrange(L.ts[0] + 100, L.ts[-1] + 10 ** 8) for _ in range(10)], kal)))
     # the same additions with the operand given in a zone's wall clock and further durations next to the real seconds
     for zone in ZONES:
-        for n in [1, 2, 5, 30, 86401] + [rng.randrange(1, 10 ** 6) for _ in range(2 if quick else 20)]:
+        for n in [1, 2, 5, 30, 86401] + [rng.randrange(1, 10 ** 6) for _ in range(2 if quick else 40)]:
             for s in (1, -1):
                 for pre, post in ((None, None), (None, "0d"), (None, "+0mo"), (0, None), (1, None), (-1, None), (7, "0d")):
                     tasks.append(("zradd", (bindir, zone, pre, s * n, post,
